@@ -681,15 +681,33 @@ def check_primitive_returns(run, rule):
                        "returns %s but stores %d byte(s)" % (cv, len(stores)))
             elif p and p[0].startswith("l:"):
                 ok = any(path(u["args"][0]) == p for u in ubs)
-                run.ob(rule, key, ok, f, r["l"], "returns the head count that was also passed to update_buffer" if ok else
-                       "returns %s which is not the count the buffer was advanced by" % show(e))
+                why = "returns the head count that was also passed to update_buffer" if ok else \
+                    "returns %s which is not the count the buffer was advanced by" % show(e)
+                if ok and wss:
+                    # a payload was copied as well: its size must have been added to the returned counter
+                    added = False
+                    for x in ir.walk(f["body"]):
+                        if x.get("k") == "Bin" and x.get("op") == "+=" and path(x["lhs"]) == p:
+                            rr = unwrap(x["rhs"])
+                            if (isinstance(rr, dict) and callee_qn(rr) == "CDNS::CdnsEncoder::write_string") or path(x["rhs"]) == path(wss[0]["args"][1]):
+                                added = True
+                    if not added:
+                        ok = False
+                        why = "returns only the head count %s although write_string() copied the payload as well: the string's bytes are not counted" % show(e)
+                run.ob(rule, key, ok, f, r["l"], why)
             elif isinstance(e, dict) and e.get("k") == "Bin" and e.get("op") == "+":
                 lp, rp = path(e["lhs"]), path(e["rhs"])
                 ok = bool(wss) and any(path(u["args"][0]) == lp for u in ubs) and rp is not None and path(wss[0]["args"][1]) == rp
                 run.ob(rule, key, ok, f, r["l"], "returns head bytes + payload size handed to write_string" if ok else
                        "returns %s; expected <head count> + <size passed to write_string>" % show(e))
             else:
-                run.ob(rule, key, None, f, r["l"], "return expression %s not understood" % show(e))
+                # a single term that is neither the head counter nor a forwarded call
+                terms_known = p is not None and (p[0].startswith("p:") or p[0].startswith("l:"))
+                if terms_known and (ubs or wss):
+                    run.ob(rule, key, False, f, r["l"],
+                           "returns %s, which is not <bytes of the head> (+ <payload size>): the reported count differs from the bytes appended" % show(e))
+                else:
+                    run.ob(rule, key, None, f, r["l"], "return expression %s not understood" % show(e))
     run.floor(rule, 18, "primitive returns")
 
 
